@@ -86,7 +86,7 @@ def pNode : P (Node Nat) := do
     let salt ← pNat
     let sc ← pList pOptNat
     let ar ← pList (pList pNat)
-    pure (.struct { fn := mix salt, scalars := sc, arrays := ar, cache := 0, version := 0,
+    pure (.struct { fn := fun sc ar ovs => mix salt sc ar (ovs.map (·.getD 0)), scalars := sc, arrays := ar, cache := 0, version := 0,
                     remembered := none, flag := false })
   else if t == "B" then
     -- the repo's binary producer `basics.BinaryNode` over a `parameter.File`: the artifact IS the
@@ -94,7 +94,7 @@ def pNode : P (Node Nat) := do
     let _salt ← pNat
     let sc ← pList pOptNat
     let ar ← pList (pList pNat)
-    pure (.struct { fn := fun _ _ vs => vs.headD 0, scalars := sc, arrays := ar, cache := 0, version := 0,
+    pure (.struct { fn := fun _ _ vs => (vs.headD none).getD 0, scalars := sc, arrays := ar, cache := 0, version := 0,
                     remembered := none, flag := false })
   else failure
 
@@ -249,7 +249,7 @@ def nodeVals (arr : Array (Node Nat)) : Array Nat :=
   arr.foldl (init := #[]) fun vals n =>
     match n with
     | .param v _ => vals.push v
-    | .struct s => vals.push (s.fn s.scalars s.arrays (s.deps.map fun d => vals[d]?.getD 0))
+    | .struct s => vals.push (s.fn s.scalars s.arrays (s.deps.map fun d => some (vals[d]?.getD 0)))
 
 def isParam (arr : Array (Node Nat)) (p : Nat) : Bool :=
   match graphOf arr p with
